@@ -185,6 +185,32 @@ def r5(c):
             okr = rd is not None and (rd[0] != i1 and b.dominates(('b', rd[0]), ('b', i1)) or
                                       (rd[0] == i1 and b.blocks[i1]['stmts'].index(rd[1]) < b.blocks[i1]['stmts'].index(st)))
         c.ob('returns-old', okr, 'next() returns the id read before the advance: consecutive calls never return the same id', '%d TxId::new sites' % len(news), loc_of(b))
+    elif len(stores) == 1 and len(news) == 1 and stores[0][1]['rv']['r'] == 'use' and q.sem(b, stores[0][1]['rv']['a'][0]).kind == 'place' and q.sem(b, stores[0][1]['rv']['a'][0]).extra == 'multi':
+        # one store of a value chosen by the wrap test: `let cur = TxId::new(self.value); self.value = if cur.value == MAX { 0 } else { cur.value + 1 }; cur`
+        i1, st = stores[0]
+        nw = news[0]
+        def is_cur(o):
+            if is_val(o):
+                return True
+            v_ = q.sem(b, o)
+            return v_.kind == 'call' and v_.cs is nw and bool(v_.proj) and v_.proj[-1].endswith(':value')
+        tmp = q.sem(b, st['rv']['a'][0])
+        defs = b.whole_defs(tmp.local)
+        zero_d = [d for d in defs if d[0] == 'assign' and d[2]['rv']['r'] == 'use' and q.const_val(b, d[2]['rv']['a'][0]) == 0]
+        inc_d = [d for d in defs if d not in zero_d]
+        okz = len(zero_d) == 1 and q.has_fact(b, ('b', zero_d[0][1]), 'eq', is_cur, is_max, facts)
+        c.ob('wrap', okz, 'at u16::MAX the counter restarts at 0', '%d definitions of 0' % len(zero_d), loc_of(b))
+        oki = len(inc_d) == 1 and inc_d[0][0] == 'assign' and q.has_fact(b, ('b', inc_d[0][1]), 'ne', is_cur, is_max, facts)
+        if oki:
+            v = q.sem(b, inc_d[0][2]['rv']['a'][0]) if inc_d[0][2]['rv']['r'] == 'use' else q.Sem('other')
+            oki = v.kind == 'bin' and v.extra[1].startswith('Add') and q.const_val(b, v.extra[3]) == 1 and is_cur(v.extra[2])
+        c.ob('increment', oki, 'otherwise the counter is advanced by exactly 1', '%d other definitions' % len(inc_d), loc_of(b))
+        xs = q.exits(b)
+        nb_ = P.fn('rodbus::common::frame::TxId::new')
+        ag_ = [s_ for _, s_ in nb_.aggregates('rodbus::common::frame::TxId')]
+        c.ob('new', len(ag_) == 1 and q.is_name(nb_, ag_[0]['rv']['a'][0], 'value'), 'TxId::new(v) is TxId { value: v }', '', loc_of(nb_))
+        okr = is_val(nw.args[0]) and b.dominates(nw.ret, ('b', i1)) and not b.in_cycle(('b', i1)) and bool(xs) and all((lambda v_: v_.kind == 'call' and v_.cs is nw and not v_.proj)(q.exit_sem(b, x)) for x in xs)
+        c.ob('returns-old', okr, 'next() returns the id read before the advance: consecutive calls never return the same id', '%d TxId::new sites' % len(news), loc_of(b))
     else:
         zero = [(i, s) for i, s in stores if s['rv']['r'] == 'use' and q.const_val(b, s['rv']['a'][0]) == 0]
         inc = [(i, s) for i, s in stores if (i, s) not in zero]
